@@ -2,6 +2,7 @@ package j5schema
 
 import (
 	"fmt"
+	"sync"
 
 	"github.com/pentops/j5/gen/j5/ext/v1/ext_j5pb"
 	"google.golang.org/protobuf/proto"
@@ -10,6 +11,10 @@ import (
 
 // SchemaCache acts like PackageSet, but builds schemas on demand from reflection.
 type SchemaCache struct {
+	// mu guards packages and every Package / RefSchema reachable from it while
+	// schemas are being built. It is taken by Schema only: refTo and
+	// referencePackage are reached from within a build, with the lock held.
+	mu       sync.Mutex
 	packages map[string]*Package
 }
 
@@ -21,6 +26,9 @@ func NewSchemaCache() *SchemaCache {
 
 // Schema returns the J5 schema for the given message descriptor.
 func (sc *SchemaCache) Schema(src protoreflect.MessageDescriptor) (RootSchema, error) {
+	sc.mu.Lock()
+	defer sc.mu.Unlock()
+
 	packageName, nameInPackage := splitDescriptorName(src)
 	schemaPackage := sc.referencePackage(packageName)
 	if built, ok := schemaPackage.Schemas[nameInPackage]; ok {
